@@ -60,6 +60,25 @@ fn check_addressing(ctx: &Ctx, z: &Zhong, y: isize, loc: &mut Local) {
   }
 }
 
+/// only the rule's leap month exists: LunarMonth::new(y, -m) is accepted iff m = get_leap_month (which check_sui ties to the rule)
+fn check_only_leap(ctx: &Ctx, y: isize, loc: &mut Local) {
+  let r = guard(|| {
+    let lp = tyme4rs::tyme::lunar::LunarYear::from_year(y).get_leap_month();
+    (lp, (1..=12isize).map(|m| tyme4rs::tyme::lunar::LunarMonth::new(y, -m).is_ok()).collect::<Vec<_>>())
+  });
+  loc.transitions += 12;
+  match r {
+    Ok((lp, acc)) => {
+      for m in 1..=12usize {
+        if acc[m - 1] != (m == lp) {
+          ctx.violation("only_leap", format!("{:04}-{:02}L", y, m), format!("LunarMonth::new({}, -{}) accepted={} but the year's leap month is {} (0 = none)", y, m, acc[m - 1], lp), vec!["sui".into(), y.to_string()]);
+        }
+      }
+    }
+    Err(m) => ctx.violation("only_leap", format!("{:04}", y), format!("panics: {}", m), vec!["sui".into(), y.to_string()]),
+  }
+}
+
 fn find_lun(t: &LunTable, day: i64, hint_year: isize) -> Option<usize> {
   let s = t.year_start[(hint_year - 1).max(0) as usize] as usize;
   let e = t.year_start[(hint_year + 2).min(10001) as usize] as usize;
@@ -180,9 +199,12 @@ pub fn run(ctx: &Ctx) {
   let done = par_chunks(ctx, 2, 9999, 50, |a, b, l| {
     for y in a..b {
       check_addressing(ctx, &z, y as isize, l);
+      if y >= 27 && !excluded(y as isize) {
+        check_only_leap(ctx, y as isize, l);
+      }
     }
   });
-  ctx.subspace("term addressing: the 12 major terms of every year 2..9998 fetched with index i-24 from the next year and i+24 from the previous year", done, 9997 * 12);
+  ctx.subspace("term addressing: the 12 major terms of every year 2..9998 fetched with index i-24 from the next year and i+24 from the previous year; only the leap month of each year 27..9998 is constructible as a leap month", done, 9997 * 12);
   // every leap month of the table must have been produced by some sui (no leap month in a 12-lunation sui is implied by the walk)
   for y in [2020isize, 2033, 1984, 7013] {
     let d0 = z.zq[(y + 1) as usize][0];
